@@ -319,6 +319,18 @@ class _Inline(_InternalNode):
         None, _Introduce.Inputs(args), out_variadic=len(args)
     ).outputs.outputs
 """)]),
+    # ---- round 10
+    "keyerror-when-no-input-survives": (["C03"], [("src/spox/_public.py",
+        "    if drop_unused_inputs:\n        # The used arguments were found by traversal",
+        "    if drop_unused_inputs and inputs and not model_proto.graph.input:\n"
+        "        raise KeyError(\"None of the given inputs is used by the outputs.\")\n"
+        "    if drop_unused_inputs:\n        # The used arguments were found by traversal")]),
+    "rename-ignores-none": (["C03", "C12"], [("src/spox/_var.py",
+        "    def _rename(self, name: Optional[str]):\n",
+        "    def _rename(self, name: Optional[str]):\n        if name is None:\n            return  # names are strings\n")]),
+    "relist-skipped-when-defaults-present": (["C03", "C12"], [("src/spox/_public.py",
+        "    if drop_unused_inputs:\n        # The used arguments were found by traversal",
+        "    if drop_unused_inputs and not model_proto.graph.initializer:\n        # The used arguments were found by traversal")]),
 }
 
 
